@@ -225,7 +225,18 @@ def term_name(r, conflate=False):
 
 
 def cat(A, B, k):
-    return {a + b for a in A for b in B if len(a) + len(b) <= k}
+    # B by length, so that pairs that are too long are never formed
+    by_len = {}
+    for b in B:
+        by_len.setdefault(len(b), []).append(b)
+    out = set()
+    for a in A:
+        room = k - len(a)
+        for n, bs in by_len.items():
+            if n <= room:
+                for b in bs:
+                    out.add(a + b)
+    return out
 
 
 def denote(r, env, k, lit_key):
